@@ -16,8 +16,8 @@ VERIF = Path(__file__).resolve().parent.parent
 REPO = Path(os.environ.get("VERIF_REPO", "/repo")).resolve()
 SRC = REPO / "src"
 LEAN = VERIF / "lean"
-OUT = VERIF / "out"
-EVIDENCE = VERIF / "evidence"
+OUT = Path(os.environ.get("VERIF_OUT_DIR", str(VERIF / "out")))
+EVIDENCE = Path(os.environ.get("VERIF_EVIDENCE_DIR", str(VERIF / "evidence")))
 PY = os.environ.get("VERIF_PYTHON", "/venv/bin/python")
 GUARD = "PYOPENAPI_GEN_VERIF"
 
@@ -142,12 +142,13 @@ class Run:
             "observed": observed,
             "expected": expected,
             "broken": broken,
-            "reproduce": f"./check {self.prop} --replay {path.relative_to(VERIF)}",
+            "reproduce": f"./check {self.prop} --replay {path}",
         }
         path.write_text(json.dumps(rec, indent=1, default=str, ensure_ascii=True))
         self.violations.append(rec)
         tail = " no-failing-input-found" if kind == "no-failing-input-found" else ""
-        print(f"VIOLATION property={self.prop} replay={path.relative_to(VERIF)}{tail}", flush=True)
+        shown = path.relative_to(VERIF) if path.is_relative_to(VERIF) else path
+        print(f"VIOLATION property={self.prop} replay={shown}{tail}", flush=True)
         if what:
             print(f"  ({what})", flush=True)
         return path
